@@ -15,6 +15,14 @@ import (
 type Txn struct {
 	Inner keyvalue.TransactionStore
 	Hook  Hook
+	// Notify, if set, is told when a transaction has been opened ("opened") and when it has ended ("closed").
+	Notify func(what string)
+}
+
+func (w *Txn) notify(what string) {
+	if w.Notify != nil {
+		w.Notify(what)
+	}
 }
 
 func WrapTxn(inner keyvalue.TransactionStore, hook Hook) *Txn { return &Txn{Inner: inner, Hook: hook} }
@@ -49,6 +57,7 @@ func (w *Txn) Transaction(o keyvalue.TransactionOptions) (keyvalue.Transaction, 
 	if err != nil {
 		return nil, err
 	}
+	w.notify("opened")
 	return &wtxn{w: w, inner: t}, nil
 }
 
@@ -122,9 +131,11 @@ func (t *wtxn) SetHandler(path string, src keyvalue.FileRecord, contents blob.Bl
 func (t *wtxn) Commit(ctx context.Context) ([]keyvalue.OpResult, error) {
 	if err := t.w.hook("Commit", ""); err != nil {
 		_ = t.inner.Abort()
+		t.w.notify("closed")
 		return nil, err
 	}
 	inner, err := t.inner.Commit(ctx)
+	t.w.notify("closed")
 	if err != nil {
 		return nil, err
 	}
@@ -148,7 +159,11 @@ func (t *wtxn) Commit(ctx context.Context) ([]keyvalue.OpResult, error) {
 	return out, nil
 }
 
-func (t *wtxn) Abort() error { return t.inner.Abort() }
+func (t *wtxn) Abort() error {
+	err := t.inner.Abort()
+	t.w.notify("closed")
+	return err
+}
 
 type wrec struct {
 	keyvalue.FileRecord
